@@ -14,11 +14,11 @@ func init() {
 	property("C09",
 		"Static conformance of text handling: (a) the terminator table is {plain: $, ascii: \\0, braille: $} and the terminator is appended exactly when the text does not already end with it, unknown types unchanged; (b) every text value recorded for hoisting or returned for a text statement is the terminator-formatted content with the very string type that is recorded/returned next to it; (c) the string type travels unchanged into ast.Text and selects the directive (default .string), and in the lexer a word directly followed by a quote is a string-type prefix whatever it spells; (d) the parallel text/type maps of a text poryswitch are read with the same key on every path; (e) one directive per line: emitText ranges over all lines of the value split at the same separator the lexer puts between adjacent literals and format() puts after a break.",
 		[]string{"contents of string literals (what the lexer accepts inside quotes) are not decided", "go/ssa lowering is faithful to the source"},
-		"C09.a", "C09.b", "C09.c", "C09.d", "C09.e", "C06.b", "C06.c", "C07.c", "C19.c")
+		"C09.a", "C09.b", "C09.c", "C09.d", "C09.e", "C06.b", "C06.c", "C07.c", "C19.c", "C19.f")
 	property("C10",
 		"Static conformance of command pass-through: (a) every iteration of the argument loop either appends the (constant-substituted) literal of the current token, closes the argument, or takes one inline arm, and then advances by exactly one token; the loop ends at the matching ')' with parenthesis depth counted on '(' / ')', and a non-empty last argument is flushed; (b) a command is rendered as TAB name [SPACE args joined by ', '] NEWLINE from constant formats; (c) statements of a chunk are rendered in order, one render per element; (d) the command name is the token literal, never constant-substituted. Hoisted-argument patching is covered by C06.a/b/c.",
 		[]string{"go/ssa lowering is faithful to the source"},
-		"C10.a", "C10.b", "C10.c", "C10.d", "C10.e", "C06.a", "C06.b", "C06.c", "C12.a", "C13.a", "C15.d", "C01.b", "C08.a", "C18.g", "C01.h", "C19.e", "C10.f")
+		"C10.a", "C10.b", "C10.c", "C10.d", "C10.e", "C06.a", "C06.b", "C06.c", "C12.a", "C13.a", "C15.d", "C01.b", "C08.a", "C18.g", "C01.h", "C19.e", "C10.f", "C19.f", "C16.d")
 	property("C11",
 		"Static conformance of AutoVar handling: (a) an AutoVar operand is recognised as an identifier configured in autovar_commands, parsed with the ordinary command parser, and its result var is the configured name or the argument at the configured position (bounds-checked), taken verbatim; (b) the parsed command is attached as the preamble of exactly the leaf whose operand is that result var (type VAR), and for switch it is placed immediately before the switch statement; (c) the leaf renders its preamble with the ordinary command renderer exactly once, before the comparison, iff present; each leaf owns one chunk and loops re-enter at the condition's entry chunk (C02.e, C01.e).",
 		[]string{"scheme argument of DESIGN §4 C11"},
@@ -115,6 +115,27 @@ func c09a(c *Ctx) {
 				}
 			}
 		}
+	}
+	// ... and nothing else: every way out is one of the three (a shortcut for empty or short text
+	// would leave a hoisted label without terminator)
+	{
+		has := "strings.HasSuffix($1," + lk + "#0)"
+		bad := ""
+		nAlt := 0
+		for _, r := range returnsOf(fn) {
+			for _, alt := range c.resultAlts(fn, r.Results[0]) {
+				nAlt++
+				must := append(append([]string{}, alt.must...), c.mustLits(fn, r.Block())...)
+				switch {
+				case alt.term == "$1" && hasLit(must, "-"+lk+"#1"):
+				case alt.term == "$1" && hasLit(must, "+"+has):
+				case alt.term == "($1 ++ "+lk+"#0)" && hasLit(must, "-"+has) && hasLit(must, "+"+lk+"#1"):
+				default:
+					bad = "returns " + pretty(alt.term) + " under " + fmt.Sprint(prettyAll(must))
+				}
+			}
+		}
+		c.Check(bad == "" && nAlt >= 3, "formatTextTerminator/every-return", c.W.FuncPos(fn), "every return is: unchanged for unknown types, unchanged when already terminated, text + terminator otherwise", "formatTextTerminator "+bad+": besides 'unknown string type' and 'already terminated' there must be no way to return text without its terminator")
 	}
 	pos := c.W.FuncPos(fn)
 	c.Check(okUnknown, "formatTextTerminator/unknown-type-unchanged", pos, "string types without a table entry are returned unchanged", "text of an unknown string type is not returned unchanged")
@@ -286,6 +307,54 @@ func c09c(c *Ctx) {
 			c.Check(ok && sawST, "NextToken/identifier-before-quote-is-string-type", c.W.Pos(r.Pos()), "an identifier directly followed by a quote is a STRINGTYPE token whatever it spells", "the identifier arm does not make every word that is directly followed by a quote a STRINGTYPE: "+why)
 		}
 		c.Check(n >= 1, "NextToken/identifier-arm", c.W.FuncPos(nt), "identifier arm found", "cannot find the identifier arm of NextToken (a returned token whose literal comes from readIdentifier)")
+	}
+	// format(): the string type handed back is the literal of the STRINGTYPE token when there is
+	// one and empty otherwise — whatever the prefix spells (unknown prefixes are passed through
+	// to the directive like everywhere else)
+	if fn := c.Fn("parser.Parser.parseFormatStringOperator"); fn != nil {
+		n := 0
+		for _, r := range returnsOf(fn) {
+			if !isSuccessReturn(r) || !c.mayBeSuccessRet(fn, r) || len(r.Results) != 4 {
+				continue
+			}
+			n++
+			ok := true
+			why := ""
+			sawLit, sawEmpty := false, false
+			for _, alt := range c.resultAlts(fn, r.Results[2]) {
+				must := append(append([]string{}, alt.must...), c.mustLits(fn, r.Block())...)
+				has, hasNot := false, false
+				for _, l := range must {
+					if strings.HasSuffix(l, `Token.Type == "STRINGTYPE")`) {
+						if l[0] == '+' {
+							// the literal taken is that of the very token that was tested
+							slot := strings.TrimSuffix(strings.TrimPrefix(l, "+("), `.Type == "STRINGTYPE")`)
+							if alt.term == `""` || stripLoopTags(alt.term) == slot+".Literal" {
+								has = true
+							}
+						} else {
+							hasNot = true
+						}
+					}
+				}
+				switch {
+				case alt.term == `""`:
+					sawEmpty = true
+					if !hasNot {
+						ok, why = false, "the string type can be empty although a string-type prefix was read (under "+fmt.Sprint(prettyAll(alt.must))+"): the text would get the default terminator and the .string directive"
+					}
+				case strings.HasSuffix(stripLoopTags(alt.term), ".Literal") && strings.Contains(alt.term, "Token"):
+					sawLit = true
+					if !has {
+						ok, why = false, "the string type "+pretty(alt.term)+" is used although no string-type prefix was read (under "+fmt.Sprint(must)+")"
+					}
+				default:
+					ok, why = false, "the string type of format() can be "+pretty(alt.term)+", which is neither empty nor the prefix token's literal"
+				}
+			}
+			c.Check(ok && sawLit && sawEmpty, fmt.Sprintf("format/string-type#%d", n), c.W.Pos(r.Pos()), "string type = the prefix token's literal iff a prefix was read", why)
+		}
+		c.Check(n >= 1, "format/string-type", c.W.FuncPos(fn), "format() returns a string type", "no successful return found in parseFormatStringOperator")
 	}
 	if fn := c.Fn("parser.Parser.parseTextStatement"); fn != nil {
 		// Value/StringType come from the same call (both phis merge matching results)
